@@ -159,6 +159,30 @@ def renamed_corpus(res, tier):
             res.violation({"kind": "rename", "cls": "does_not_compile", "pid": pid, "diags": d[:4], "codes": sorted(set(x["code"] for x in d if x.get("code"))),
                            "what": "%s: compiles under the name `sylvia` but not with the dependency renamed to `fw`: %s %s" % (pid, d[0].get("code"), d[0]["message"])})
     res.parts["renamed_programs"] = len(progs)
+    if tier == "thorough":
+        # "... and behaves identically": the basic family's traces on the renamed build vs the normal build
+        base_cp, info = fam_basic.corpus(tier)
+        cases = []
+        for pid, (c, tags, names) in sorted(info.items()):
+            if pid in cp.failed or pid in base_cp.failed:
+                continue
+            for (label, disp, m) in fam_basic.handlers(c):
+                for tup in fam_basic.value_tuples(m)[:2]:
+                    d = fam_basic.doc(m, tup)
+                    for cx in (fam_basic.CONTEXTS[1], fam_basic.FAIL_CONTEXTS[0]):
+                        for op in ("ep", "mt"):
+                            cases.append({"prog": pid, "op": op, "kind": m.kind, "input": d, "ctx": cx})
+        a = base_cp.run_cases(cases)
+        b = cp.run_cases(cases)
+        import re as _re
+        for case, oa, ob in zip(cases, a, b):
+            res.add(states=1, transitions=2, traces=2, evaluations=1)
+            na = _re.sub(r"\w+_shard\d+::", "", json.dumps(oa, sort_keys=True))
+            nb = _re.sub(r"\w+_shard\d+::", "", json.dumps(ob, sort_keys=True))
+            if na != nb:
+                res.violation({"kind": "rename", "cls": "behaves_differently", "pid": case["prog"], "case": case, "normal": oa, "renamed": ob,
+                               "what": "%s: %s of %s answers differently when the dependency is renamed: %s vs %s" % (case["prog"], case["op"], case["input"], na[:200], nb[:200])})
+        res.parts["renamed_traces"] = len(cases)
     return cp, progs
 
 
